@@ -258,6 +258,46 @@ ROUND3.update({
              "missed: float columns were float64 only; float32 columns added"),
 })
 
+ROUND3.update({
+    # round 9 (session 3)
+    "C02f": ("RoiSubsetStateNd.attributes de-duplicates its attributes, and the generic saver of n-attribute region selections builds the saved list from it",
+             "a direct n-attribute region selection that uses the same attribute on two axes, saved and restored",
+             "caught"),
+    "C03f": ("Data._removed_derived_that_depend_on pops dependent derived components directly: no DataRemoveComponentMessage for them, so the link manager keeps links that touch them",
+             "a dataset with an own derived attribute, an external link touching the derived attribute, then removal of the derived attribute's *input*",
+             "missed: the history was generatable but needed three rare steps in order (1 in >2000 histories); focused generator `derived_dependent_histories` added"),
+    "C04e": ("RoiSubsetStateNd.to_mask tests isinstance(att, PixelComponentID) instead of membership in the dataset's own pixel ids before taking the pixel-space shortcut",
+             "a region on pixel axes of dataset A evaluated on a linked dataset B that has an axis whose number is not among A's region axes",
+             "caught"),
+    "C06e": ("Subset.delete removes the dataset's entry by label (first match) instead of by identity",
+             "two subset groups that share a label (group labels are free text) and removal of the later one while a dataset is present",
+             "missed: groups did share labels (261 of 600 random histories) but none removed the later of two same-labelled groups with a dataset present; `label_clash_histories` enumerates all such histories up to 5 steps"),
+    "C07e": ("_mro_count memoised by class __name__: two message classes that share a name tie for 'most specific'",
+             "a message class refined under the same class name, one listener subscribed to the general class first and the refinement second",
+             "missed: the four message classes had distinct names; every program now also runs with all message classes named alike (`same_names`), plus an enumerated block with general-then-specific subscriptions"),
+    "C09e": ("EllipticalROI.to_polygon skips the rotation for theta % (pi/2) == 0 instead of theta % pi == 0",
+             "an ellipse with unequal radii at an odd multiple of pi/2 over exactly one categorical axis",
+             "caught"),
+    "C11e": ("ElementSubsetState.copy assigns through the `data` property (which stores elsewhere), so the copy is bound to no dataset",
+             "a row-position selection bound to one dataset, copied (edit mode, paste), read on a key-joined dataset whose length admits the positions",
+             "missed: selections were inequality states only; element selections (0-2 copies deep) added"),
+    "C13e": ("_store_subset_groups skips the snapshot when the command object already has one (a redone command keeps the groups it saw first)",
+             "undo two deep across a group-creating selection, redo both, undo the upper one",
+             "caught"),
+    "C14f": ("parse._validate skips a tag whose component was already seen, so a second spelling of the same attribute is left unreplaced",
+             "a parsed expression that mentions one attribute twice with different legal spellings ({x} and { x }) or through two tag names",
+             "caught"),
+    "C16e": ("bounds_for_cache returns the caller's own list when no bound becomes a wildcard, so the cache keys alias it",
+             "one cache id, one bounds list edited in place by the caller between requests, no wildcard dimension",
+             "missed: every request passed a fresh list; `reuse_bounds_list` keeps one list per sequence and edits it in place"),
+    "C18e": ("ProfileViewerState._reference_data_changed remembers the last reference only when it is not None",
+             "a profile viewer emptied and then given back the dataset that was its reference when it emptied",
+             "caught"),
+    "C20e": ("categorical_ndarray.__array_finalize__ shares the parent's cached codes with same-shape derived arrays",
+             "a same-shape reordering (reverse, permutation, sort, roll, square transpose) of a categorical array whose codes were computed",
+             "caught"),
+})
+
 sweep = {}
 if len(sys.argv) > 1 and os.path.exists(sys.argv[1]):
     for line in open(sys.argv[1]):
@@ -276,6 +316,12 @@ for name, (change, needs, first) in sorted(ALL.items()):
         print("no directory for", name)
         continue
     rc, sig = sweep.get(name, (None, ""))
+    if rc is None and os.path.exists(os.path.join(d, "meta.json")):
+        # not part of this sweep: keep what the last sweep that included it recorded
+        prev = json.load(open(os.path.join(d, "meta.json")))
+        if prev.get("detected") is not None:
+            rc = 1 if prev["detected"] else 0
+            sig = (prev.get("caught_by") or "").split(" quick: ", 1)[-1] if prev.get("caught_by") else ""
     meta = {
         "breaks": name[:3],
         "round": 3 if name in ROUND3 else 2,
